@@ -408,7 +408,7 @@ func preemptHistory(c *Ctx, d *coreDrv) {
 		case p < 30:
 			askFor(filler, c.pick(2), false)
 		case p < 70:
-			emit(map[string]interface{}{"op": "schedule"})
+			emit(s.scheduleOp(interruptP))
 		case p < 82:
 			for len(s.pendConf) > 0 {
 				conf := s.pendConf[0]
@@ -570,7 +570,7 @@ func quotaHistory(c *Ctx, d *coreDrv) {
 		case p < 40:
 			askFor("app-4", 1, 4) // carol: group bound
 		case p < 75:
-			emit(map[string]interface{}{"op": "schedule"})
+			emit(s.scheduleOp(interruptP))
 		case p < 86:
 			releaseOf("app-2")
 		case p < 92:
